@@ -71,6 +71,11 @@ inductive FKind where
       through the subscriber's reusable lock future (phase A, `st = idle`), then a second, fresh read-lock
       acquisition (phase B, queued / granted like a read guard) under which the version is marked observed -/
   | nextRef (i : Nat)
+  /-- `Subscriber::<_, AsyncLock>::next_now()` of subscriber `i`: one read-lock acquisition, value and observed version under it -/
+  | nextNow (i : Nat)
+  /-- `SharedObservable::<_, AsyncLock>::subscribe()` through owner `h`: the read lock is awaited first, the new
+      subscriber's references are created under it -/
+  | subscribe (h : Nat)
 
 structure AFut where
   kind : FKind
@@ -129,7 +134,7 @@ def AWorld.pollSub (a : AWorld) (i : Nat) (wk : Nat := i) :
 /-- first poll of a new call / guard future -/
 def AWorld.startFut (a : AWorld) (kind : FKind) : AWorld × Nat × Bool :=
   let k := a.futs.length
-  let need := match kind with | .rguard => 1 | .nextRef _ => 1 | _ => a.sem.max
+  let need := match kind with | .rguard => 1 | .nextRef _ => 1 | .nextNow _ => 1 | .subscribe _ => 1 | _ => a.sem.max
   let (s, ok) := a.sem.acquire (.fut k) need
   ({ a with sem := s, futs := a.futs ++ [{ kind, st := if ok then .granted else .queued }] }, k, ok)
 
@@ -156,6 +161,19 @@ def AWorld.finishFut (eqv : Nat → Nat → Bool) (hash : Nat → Nat) (a : AWor
       | none => none
       | some (w', v) =>
         some ({ a0 with w := w', guards := a0.guards ++ [1] }, "guard " ++ toString a0.guards.length ++ " " ++ toString v, [], [])
+    | .nextNow i =>
+      match a0.w.nextNow i with
+      | none => none
+      | some (w', v) =>
+        let (a1, lw) := { a0 with w := w' }.releaseN 1
+        some (a1, toString v, lw, [])
+    | .subscribe h =>
+      match a0.w.subscribe h false with
+      | none => none
+      | some (w', id) =>
+        -- the async subscriber holds two references to the state (known finding D8)
+        let (a1, lw) := { a0 with w := { w' with arcState := w'.arcState + 1 } }.releaseN 1
+        some (a1, "sub " ++ toString id, lw, [])
     | .wguard => some ({ a0 with guards := a0.guards ++ [a0.sem.max] }, "guard " ++ toString a0.guards.length, [], [])
 
 /-- a `next_ref()` future of subscriber `i` is created (nothing happens until it is polled) -/
@@ -207,7 +225,7 @@ def AWorld.dropFut (a : AWorld) (k : Nat) : Option (AWorld × List AOwner) :=
   match a.futs[k]? with
   | none => none
   | some f =>
-    let need := match f.kind with | .rguard => 1 | .nextRef _ => 1 | _ => a.sem.max
+    let need := match f.kind with | .rguard => 1 | .nextRef _ => 1 | .nextNow _ => 1 | .subscribe _ => 1 | _ => a.sem.max
     let a0 := { a with futs := a.futs.set k { f with st := .done } }
     match f.st with
     | .idle => (match f.kind with | .nextRef _ => some (a0, []) | _ => none)   -- phase A: the lock future belongs to the subscriber
